@@ -61,7 +61,19 @@ PAIRS = universes.Universe(
     },
     sources=[[("tmp/r.py", "r")]],
 )
-PROGRAMS = {"U1": universes.ALL["U1"], "U3": universes.ALL["U3"], "W6": WIDE, "D6": DEEP, "P7": PAIRS}
+# INFERRED interfaces: b's interface hash changes although b's source does not (x = a.f()), and b's several
+# dependents are re-checked by whichever workers are free (a worker's copy of b's hash must be refreshed)
+INFER = universes.Universe(
+    name="I7-inferred",
+    files={
+        "tmp/r.py": ["import c0, c1, c2, c3\nx: int = c0.g() + c1.g() + c2.g() + c3.g()\n"],
+        **{f"tmp/c{i}.py": ["import b\ndef g() -> int:\n    return b.x + 1\n"] for i in range(4)},
+        "tmp/b.py": ["import a\nx = a.f()\n"],
+        "tmp/a.py": ["def f() -> int:\n    return 0\n", "def f() -> str:\n    return ''\n"],
+    },
+    sources=[[("tmp/r.py", "r")]],
+)
+PROGRAMS = {"U1": universes.ALL["U1"], "U3": universes.ALL["U3"], "W6": WIDE, "D6": DEEP, "P7": PAIRS, "I7": INFER}
 
 
 def file_map(u, vm: dict[str, int]) -> dict:
@@ -260,7 +272,8 @@ def make_jobs(ctx: Ctx) -> list[dict]:
     dependency (its dependents are otherwise fresh) and always validate the cache the schedule leaves behind
     against every follow-up edit."""
     primary = {"U1": {"tmp/d.py": 1}, "U3": {"tmp/b.py": 2}, "W6": {"tmp/base.py": 1}, "D6": {"tmp/m5.py": 1},
-               "P7": {f"tmp/d{i}.py": 1 for i in range(3)}}  # P7: all leaves at once (several ready stale SCCs)
+               "P7": {f"tmp/d{i}.py": 1 for i in range(3)},  # P7: all leaves at once (several ready stale SCCs)
+               "I7": {"tmp/a.py": 1}}
     jobs: list[dict] = []
 
     def add(p: str, n: int, scenario: str, bound: int, store: str = "fs", edit: dict | None = None,
@@ -279,6 +292,7 @@ def make_jobs(ctx: Ctx) -> list[dict]:
         add("U3", 2, "warm", 1)
         add("W6", 2, "warm", 1)
         add("P7", 2, "warm", 1)
+        add("I7", 2, "warm", 1)
     else:
         add("U1", 2, "cold", 2, followups=True)
         add("U1", 2, "warm", 2)
@@ -291,7 +305,7 @@ def make_jobs(ctx: Ctx) -> list[dict]:
         add("U3", 3, "cold", 1)
         add("U3", 2, "warm", 1)
         add("U3", 3, "warm", 1)
-        for p in ("W6", "D6", "P7"):
+        for p in ("W6", "D6", "P7", "I7"):
             for n in (2, 3):
                 add(p, n, "cold", 1)
                 add(p, n, "warm", 1)
